@@ -61,10 +61,10 @@ def plan(tier, seed):
     for i, T in enumerate(Ts):
         cases.append({'kind': 'binary', 'T': float(T), 'ng': NG[tier], 'weight': 5e4})
     for i in range(NMULTI[tier]):
-        cases.append({'kind': 'multiT', 'pattern': ['decreasing', 'cycle', 'grid', 'random', 'increasing'][i % 5], 'n': 5 + i % 4,
+        cases.append({'kind': 'multiT', 'rep': i, 'pattern': ['decreasing', 'cycle', 'grid', 'random', 'increasing'][i % 5], 'n': 5 + i % 4,
                       'weight': 5e4})
     for i in range(NMETH[tier]):
-        cases.append({'kind': 'multi_methods', 'system': ['almgsi', 'nialcr'][i % 2], 'npoints': 12 if tier == 'quick' else 25, 'weight': 2e5})
+        cases.append({'kind': 'multi_methods', 'rep': i, 'system': ['almgsi', 'nialcr'][i % 2], 'npoints': 12 if tier == 'quick' else 25, 'weight': 2e5})
     for i in range(NTRAJ[tier]):
         r = core.case_rng(seed, PROPERTY, 100 + i)
         system = ['alzr', 'nialcr', 'almgsi', 'nialcr', 'alzr'][i % 5]
@@ -168,15 +168,17 @@ def _multi_methods(case, R):
     sampling agree in value (measured 6e-11 J/mol beyond the documented 1 J/mol offset), all four agree in sign.
     Ni-Al-Cr: ordered, non-stoichiometric precipitate -> sign only, and 'away from the solvus' is decided by the other
     methods: when at least two of the other three methods report more than 300 J/mol of one sign, the method under test
-    must have that sign. The tangent object is brand new for every point (a long-lived one is history dependent: C09)."""
+    must have that sign. The tangent object is brand new for every point (a long-lived one is history dependent: C09);
+    the other three objects live for the whole case."""
     import warnings
     warnings.filterwarnings('ignore')
     system = case['system']
     rng = core.case_rng(case['seed'], PROPERTY, case['idx'], 7)
     methods = ['tangent', 'approximate', 'sampling', 'curvature']
+    # objects are created per case (a case is then a self-contained, replayable history of queries on its own objects)
+    _MTH.clear()
     for m in methods[1:]:
-        if (system, m) not in _MTH:
-            _MTH[(system, m)] = precip.make_therm(system, None, None, m)
+        _MTH[(system, m)] = precip.make_therm(system, None, None, m)
     phases = _MTH[(system, 'approximate')].phases[1:]
     nfar = 0
     for k in range(case['npoints']):
